@@ -863,8 +863,9 @@ def failsafe_random(repo, args, v):
             v.eval(1)
             v.count("fs_default_config_cases")
             if viol:
-                viol["detail"] += "\nblack-box measurement of this environment: %s" % measure_effective(repo, case["env"])
-                v.violate(viol["signature"], viol["detail"], viol["replay"])
+                # defaults (variables unset) are outside the statement ("the configured number"):
+                # a README/code disagreement is reported as an info counter, never as a violation
+                v.count("info_defaults_differ_from_readme")
         v.extra["wiring"] = {
             "env(th=2,cd=7) end-to-end": measure_effective(repo, {ENV_TH: "2", ENV_CD: "7"}),
             "env unset": measure_effective(repo, {}),
